@@ -21,11 +21,11 @@ EXPLANATION = (
     "the constructor; (D4) _check_normalization: numeric branch sums |a|^2 and raises unless isclose(.., 1), "
     "symbolic branch sums the numeric entries (probe accepts complex numbers) and raises when the sum exceeds 1; "
     "probabilities are |amplitudes|^2; (D5) save/load key agreement and loader interface. "
-    "(D2o) __setitem__ never replaces the amplitude container between the write and the rollback; (D2s) the saved old value is a copy (a slice of a numpy vector is a view); (D4c) the numeric-entry classifier is complete for symbol-free expressions (no is_Number-style atomic predicates); (D5o) no one-sided test on an imaginary part on the save path; (D6) the flip ordering is arange(2**n) viewed as n axes of extent 2 with every axis reversed and flattened again (exactly the bit-reversal permutation, an involution), and flip_amplitudes indexes the amplitudes by the ordering of their own length."
+    "(D2o) __setitem__ never replaces the amplitude container between the write and the rollback; (D2s) the saved old value is a copy (a slice of a numpy vector is a view); (D4c) the numeric-entry classifier is complete for symbol-free expressions (no is_Number-style atomic predicates); (D5o) no one-sided test on an imaginary part on the save path; (D6) the flip ordering is arange(2**n) viewed as n axes of extent 2 with every axis reversed and flattened again (exactly the bit-reversal permutation, an involution), and flip_amplitudes indexes the amplitudes by the ordering of their own length; (D7) the Dicke constructor drives the next-same-weight step from the smallest integer of the weight, keeps a value exactly while it fits in n bits, and stores 1/sqrt(number kept) at the kept indices of zeros(2**n)."
 )
 RULE_TEXT = "instances = CFG nodes of the constructor/__setitem__/bind, stores to the amplitude field anywhere in the package, branches of the normalisation check, record keys; distinct by (rule, construct)"
 ASSUMPTIONS = [
-    "declined: Dicke weights, probabilities summing to 1 numerically (numeric claims)",
+    "declined: the bit trick _get_next_number_with_same_hamming_weight itself (an arithmetic identity on integers: solver territory), probabilities summing to 1 numerically",
     "informational, not claimed: accessors hand out the internal array by reference and np.asarray may alias the caller's array; rollback of a *slice* assignment saves a numpy view",
 ]
 
@@ -376,7 +376,128 @@ def check_bit_reversal(ctx):
     ctx.check(ok, R6, fw.key, "flip_wavefunction wraps flip_amplitudes of the wavefunction's amplitudes", f"flip_wavefunction returns {short(r[0]) if r else None}", fw)
 
 
+R7 = "C12-D7 dicke-enumeration"
+
+
+def _fold_bool(t: ast.AST, env) -> "Optional[bool]":
+    """constant folding of a comparison over integer stand-ins (env: normalised text -> int)"""
+    if isinstance(t, ast.UnaryOp) and isinstance(t.op, ast.Not):
+        v = _fold_bool(t.operand, env)
+        return None if v is None else not v
+    if isinstance(t, ast.Compare) and len(t.ops) == 1:
+        def val(e):
+            if isinstance(e, ast.Constant) and isinstance(e.value, int):
+                return e.value
+            if norm(e) in env:
+                return env[norm(e)]
+            if isinstance(e, ast.BinOp) and isinstance(e.op, (ast.Add, ast.Sub)):
+                a, b = val(e.left), val(e.right)
+                return None if a is None or b is None else (a + b if isinstance(e.op, ast.Add) else a - b)
+            return None
+        a, b = val(t.left), val(t.comparators[0])
+        if a is None or b is None:
+            return None
+        op = t.ops[0]
+        return {ast.Lt: a < b, ast.LtE: a <= b, ast.Gt: a > b, ast.GtE: a >= b, ast.Eq: a == b, ast.NotEq: a != b}.get(type(op))
+    return None
+
+
+def check_dicke(ctx):
+    """Structure the Dicke constructor rests on (the bit trick that steps to the next integer of the same weight is taken as
+    given; what is decided is how the constructor drives it): the walk starts at the smallest integer of the requested weight,
+    every value produced is kept exactly while it fits in n bits (the stop test is false for a value of n bits and true for
+    n + 1 bits), the amplitude is 1/sqrt(number of kept indices) and is stored at exactly those indices of a zero vector of
+    length 2**n. An unrecognised shape is UNDECIDED."""
+    repo = ctx.repo
+    f = repo.func(f"{WF}:Wavefunction.dicke_state")
+    ctx.analysed(f)
+    ps = positional_params(f.node)
+    n, k = ps[0], ps[1]
+    d = Defs(f.node)
+    loops = [w for w in body_walk(f.node) if isinstance(w, ast.While)]
+    if len(loops) != 1:
+        ctx.undecided(R7, f.key, f"expected one enumeration loop, found {len(loops)}", f)
+        return
+    loop = loops[0]
+    where = f"{f.module.relpath}:{loop.lineno}"
+    steps = [a for a in loop.body if isinstance(a, ast.Assign) and isinstance(a.value, ast.Call) and dotted(a.value.func) == "_get_next_number_with_same_hamming_weight" and len(a.value.args) == 1 and norm(a.targets[0]) == norm(a.value.args[0])]
+    if len(steps) != 1:
+        ctx.undecided(R7, f.key, "cannot find `cur = _get_next_number_with_same_hamming_weight(cur)` in the loop", where)
+        return
+    cur = norm(steps[0].targets[0])
+    # seed
+    seeds = [v for v in d.defs.get(cur, []) if isinstance(v, ast.AST) and v is not steps[0].value]
+    ok_seed = len(seeds) == 1 and norm(seeds[0]) in (f"int('1' * {k}, base=2)", f"int('1' * {k}, 2)", f"(1 << {k}) - 1", f"2 ** {k} - 1")
+    ctx.check(ok_seed, R7, f.key + ":seed", "the walk starts at the smallest integer with the requested number of ones", f"the walk starts at {short(seeds[0]) if seeds else None}: not the smallest integer with {k} ones (2**{k} - 1), so lower basis states of that weight are skipped or states of another weight are included", where)
+    # stop test
+    guards = [g for g in loop.body if isinstance(g, ast.If) and any(isinstance(x, ast.Break) for x in g.body) and "_most_significant_set_bit" in norm(g.test)]
+    appends = [c for st in loop.body for c in ast.walk(st) if isinstance(c, ast.Call) and isinstance(c.func, ast.Attribute) and c.func.attr == "append" and len(c.args) == 1 and norm(c.args[0]) == cur]
+    if len(guards) != 1 or len(appends) != 1:
+        ctx.undecided(R7, f.key + ":stop", "cannot find the single `_most_significant_set_bit(cur)` stop test and the single append of the current value", where)
+        return
+    g = guards[0]
+    msb = f"_most_significant_set_bit({cur})"
+    at_n = _fold_bool(g.test, {msb: 5, n: 5})
+    over = _fold_bool(g.test, {msb: 6, n: 5})
+    if at_n is None or over is None:
+        ctx.undecided(R7, f.key + ":stop", f"cannot evaluate the stop test `{short(g.test)}`", where)
+    else:
+        ctx.check(at_n is False and over is True, R7, f.key + ":stop", "a value of n bits is kept, a value of n + 1 bits ends the walk", f"the stop test `{short(g.test)}` is {at_n} for a value of exactly {n} bits and {over} for one of {n} + 1 bits: " + ("basis states whose highest qubit is set are left out" if at_n else "values that do not fit the register are kept"), f"{f.module.relpath}:{g.lineno}")
+    order = [st for st in loop.body if st is steps[0] or st is g or any(x is appends[0] for x in ast.walk(st))]
+    ok_order = len(order) == 3 and order[0] is steps[0] and order[1] is g
+    ctx.check(ok_order, R7, f.key + ":order", "step, then stop test, then keep", "the loop does not step, test and keep in that order: a value is kept before it is tested (or tested before it is produced)", where)
+    lst = norm(appends[0].func.value)
+    inits = [v for v in d.defs.get(lst, []) if isinstance(v, ast.AST)]
+    ok_init = len(inits) == 1 and isinstance(inits[0], ast.List) and len(inits[0].elts) == 1 and norm(inits[0].elts[0]) == cur
+    ctx.check(ok_init, R7, f.key + ":first-kept", "the list of kept indices starts with the seed", f"the kept indices start as {short(inits[0]) if inits else None}: the first state of the walk is not kept (or something else is)", where)
+    # amplitude = 1/sqrt(number kept)
+    amps = [a for a in body_walk(f.node) if isinstance(a, ast.Assign) and isinstance(a.targets[0], ast.Subscript) and norm(a.targets[0].slice) == lst]
+    if len(amps) != 1:
+        ctx.undecided(R7, f.key + ":amplitude", f"cannot find the single store `vector[{lst}] = amplitude`", f)
+        return
+    amp = amps[0].value
+    if isinstance(amp, ast.Name):
+        amp = d.single_def(amp.id)
+    cnt = None
+    if isinstance(amp, ast.BinOp) and isinstance(amp.op, ast.Div) and norm(amp.left) in ("1", "1.0") and isinstance(amp.right, ast.Call) and (dotted(amp.right.func) or "").split(".")[-1] == "sqrt" and len(amp.right.args) == 1:
+        cnt = amp.right.args[0]
+    ok_cnt = False
+    detail = f"the amplitude is {short(amp) if isinstance(amp, ast.AST) else None}, not 1/sqrt(number of kept indices)"
+    if cnt is not None:
+        if norm(cnt) == f"len({lst})":
+            ok_cnt = True
+        elif isinstance(cnt, ast.Name):
+            c0 = [st.value for st in body_walk(f.node) if isinstance(st, (ast.Assign, ast.AnnAssign)) and st.value is not None and norm(st.targets[0] if isinstance(st, ast.Assign) else st.target) == cnt.id]
+            bumps = [st for st in loop.body if isinstance(st, ast.AugAssign) and norm(st.target) == cnt.id and isinstance(st.op, ast.Add) and norm(st.value) == "1"]
+            after = bool(bumps) and loop.body.index(bumps[0]) > loop.body.index(g)
+            ok_cnt = len(c0) == 1 and norm(c0[0]) == "1" and len(bumps) == 1 and after and ok_init
+            detail = f"the counter `{cnt.id}` starts at {short(c0[0]) if c0 else None} and is incremented {len(bumps)} time(s) per kept index" + ("" if after else " before the stop test") + ": it does not count the kept indices, so the amplitudes do not square-sum to 1 / are not those of the Dicke state"
+    ctx.check(ok_cnt, R7, f.key + ":amplitude", "amplitude = 1/sqrt(number of kept indices)", detail, f"{f.module.relpath}:{amps[0].lineno}")
+    vec = norm(amps[0].targets[0].value)
+    vdef = d.single_def(vec) if vec.isidentifier() else None
+    ok_vec = isinstance(vdef, ast.Call) and (dotted(vdef.func) or "").split(".")[-1] == "zeros" and vdef.args and norm(vdef.args[0]) == f"2 ** {n}"
+    rets = [r for r in returned_exprs(f.node) if any(isinstance(x, ast.Name) and x.id == vec for x in ast.walk(r))]
+    ok_ret = len(rets) == 1 and norm(rets[0]) == f"Wavefunction({vec})"
+    ctx.check(ok_vec and ok_ret, R7, f.key + ":vector", "the amplitudes go into a zero vector of length 2**n that is returned through the constructor", f"the vector {short(vdef) if isinstance(vdef, ast.AST) else vec} is not zeros(2**{n}) returned as Wavefunction({vec})", f)
+    ms = repo.func(f"{WF}:_most_significant_set_bit")
+    ctx.analysed(ms)
+    md = Defs(ms.node)
+    mr = returned_exprs(ms.node)
+    v = positional_params(ms.node)[0]
+    e = mr[0] if len(mr) == 1 else None
+    ok_ms = False
+    if e is not None:
+        txt = norm(e)
+        for nm, vs in md.defs.items():
+            if len(vs) == 1 and isinstance(vs[0], ast.AST):
+                txt = txt.replace(nm, norm(vs[0])) if nm != v else txt
+        ok_ms = txt in (f"len(bin({v})) - 2", f"{v}.bit_length()")
+    ctx.check(ok_ms, R7, ms.key, "number of bits of the value (len(bin(v)) - 2)", f"_most_significant_set_bit returns {short(e) if e is not None else None}: not the bit length of its argument, which the stop test compares with the register width", ms)
+
+
 def run(ctx):
+    check_dicke(ctx)
+    ctx.floor("C12-D7", 7)
     check_bit_reversal(ctx)
     ctx.floor("C12-D6", 4)
     check_constructor(ctx)
